@@ -520,12 +520,31 @@ class Escape:
         if not (isinstance(off, ast.BinOp) and isinstance(off.op, ast.Sub)):
             return False
         a, b = off.left, off.right
+        rname = dotted(recv)
+
+        def from_read(x) -> bool:
+            o = origin(f.node, x)
+            return isinstance(o, ast.Call) and isinstance(o.func, ast.Attribute) and o.func.attr == "read" and dotted(o.func.value) == rname
+
+        if isinstance(b, ast.Name) and (self.nonneg(f, a, st) or self._guard_nonneg(f, a, st)):
+            # a byte counter: starts at 0 and only grows by len(<what was read from this stream>)
+            defs = assignments_to(f.node, b.id)
+            ok = bool(defs) and b.id not in params(f.node)
+            for s2, v in defs:
+                if isinstance(v, ast.Constant) and type(v.value) is int and v.value == 0:
+                    continue
+                if isinstance(s2, ast.AugAssign) and isinstance(s2.op, ast.Add) and isinstance(s2.value, ast.Call) and dotted(s2.value.func) == "len" \
+                        and s2.value.args and from_read(s2.value.args[0]):
+                    continue
+                ok = False
+            if ok:
+                self.facts_used.append(f"give-back: {f.fq}: seek({src(off)}, SEEK_CUR) returns bytes counted from reads of {rname}")
+                return True
         if not (isinstance(b, ast.Call) and dotted(b.func) == "len" and b.args and isinstance(b.args[0], ast.Name)):
             return False
         acc = b.args[0].id
         if not (self.nonneg(f, a, st) or self._guard_nonneg(f, a, st)):
             return False
-        rname = dotted(recv)
         for s2, v in assignments_to(f.node, acc):
             if isinstance(v, ast.Constant) and v.value == b"":
                 continue
@@ -1074,12 +1093,28 @@ class Escape:
         return False
 
     # ------------------------------------------------------------------ misc primitives
-    def _nonzero(self, f: Func, st: ast.AST, d: ast.AST) -> bool:
+    def _nonzero(self, f: Func, st: ast.AST, d: ast.AST, depth: int = 0) -> bool:
         try:
             v = const_eval(d)
             return v != 0
         except NotConst:
             pass
+        if isinstance(d, ast.Name) and depth < 4 and (d.id in params(f.node) or assignments_to(f.node, d.id)) is not None:
+            # a local: every definition reaching this statement is non-zero (evaluated at the definition)
+            from .q import reaching_defs
+
+            rd = reaching_defs(self.ctx, f, d.id, st)
+            if rd and all(v is not None and isinstance(s2, ast.stmt) and self._nonzero(f, s2, v, depth + 1) for s2, v in rd):
+                return True
+        if isinstance(d, ast.Call) and dotted(d.func) == "len" and d.args and isinstance(d.args[0], ast.Name) and depth < 4:
+            # len(x) where x is, at this point, a plain copy of another name: reason about that name
+            from .q import reaching_defs
+
+            rd = reaching_defs(self.ctx, f, d.args[0].id, st)
+            if len(rd) == 1 and isinstance(rd[0][1], ast.Name) and isinstance(rd[0][0], ast.stmt):
+                root = ast.Call(func=d.func, args=[rd[0][1]], keywords=[])
+                if self._nonzero(f, rd[0][0], ast.copy_location(root, d), depth + 1):
+                    return True
         if isinstance(d, ast.Name):
             # module constant
             mod = f.module
@@ -1187,7 +1222,7 @@ class Escape:
             return "KeyError"
         if isinstance(k, int):
             need = k + 1 if k >= 0 else -k
-            L = self._min_len(f, base, st)
+            L = self._min_len(f, base, st, at=n)
             if L is not None and L >= need:
                 return None
             return "IndexError"
@@ -1242,9 +1277,33 @@ class Escape:
                 return False
         return True
 
-    def _min_len(self, f: Func, base: ast.AST, st: ast.AST) -> Optional[int]:
+    def _short_circuit_guards(self, f: Func, node: ast.AST) -> List[Tuple[ast.AST, bool]]:
+        """(test, polarity) pairs known to hold when `node` is evaluated because of short-circuit evaluation inside its
+        own statement: earlier operands of an enclosing `and` (true), of an enclosing `or` (false), the test of an
+        enclosing conditional expression."""
+        fv = FuncView.of(f.node)
+        out: List[Tuple[ast.AST, bool]] = []
+        child = node
+        p = fv.parent.get(id(child))
+        while p is not None and not isinstance(p, ast.stmt):
+            if isinstance(p, ast.BoolOp):
+                for v in p.values:
+                    if v is child:
+                        break
+                    out.append((v, isinstance(p.op, ast.And)))
+            elif isinstance(p, ast.IfExp) and child is not p.test:
+                out.append((p.test, child is p.body))
+            child, p = p, fv.parent.get(id(p))
+        return out
+
+    def _min_len(self, f: Func, base: ast.AST, st: ast.AST, at: Optional[ast.AST] = None) -> Optional[int]:
         """A lower bound on len(base) from recognised facts, else None."""
         b = strip_cast(base)
+        if isinstance(b, ast.Subscript) and not isinstance(b.slice, ast.Slice):
+            # an element of a sequence of pairs / n-grams (Counter.most_common(), dict.items(), grouper(..))
+            e = self._iter_elem_len(f, origin(f.node, strip_cast(b.value)))
+            if e is not None:
+                return e
         if isinstance(b, (ast.List, ast.Tuple)):
             return len(b.elts)
         if isinstance(b, ast.Constant) and isinstance(b.value, (bytes, str)):
@@ -1295,9 +1354,23 @@ class Escape:
                                 return True
                     return None
                 return pred
+            def mk2(pred_n):
+                base_pred = mk(pred_n)
+
+                def pred(test):
+                    r = base_pred(test)
+                    if r is None and pred_n <= 1 and dotted(test) == name:
+                        return True  # `if seq:` - non-empty on the true edge
+                    return r
+                return pred
             for nlen in (8, 4, 3, 2, 1):
-                if guarded_by(self.ctx, f, st, mk(nlen)) or self._after_early_exit(f, st, lambda t, n=nlen: (False if mk(n)(t) is False else None)):
+                if guarded_by(self.ctx, f, st, mk2(nlen)) or self._after_early_exit(f, st, lambda t, n=nlen: (False if mk2(n)(t) is False else None)):
                     return nlen
+                if at is not None:
+                    for t, pol in self._short_circuit_guards(f, at):
+                        r = mk2(nlen)(t)
+                        if r is not None and r == pol:
+                            return nlen
             defs = assignments_to(f.node, name)
             lens = []
             for s2, v in defs:
@@ -1366,8 +1439,8 @@ def comprehension_patch(esc: Escape):
     """Comprehension variables over n-grams: `gram[0] for gram in grouper(chunk, n=4)`."""
     orig = esc._min_len
 
-    def _min_len(f, base, st):
-        r = orig(f, base, st)
+    def _min_len(f, base, st, at=None):
+        r = orig(f, base, st, at=at)
         if r is not None:
             return r
         if isinstance(base, ast.Name):
